@@ -20,9 +20,12 @@ def plain_cases(chk):
     rng = chk.rng
     out = []
     for name, script, stack, sv, fl, succ, weight in c04.catalogue():
-        if sv != "BASE" or succ: continue
+        if sv != "BASE" or succ or name == "opcount": continue      # the 202-operation script belongs to C10 / C04; its listings cost minutes here
         out.append((name, script, stack, fl))
     O = G.OP
+    # OP_CODESEPARATOR executed in a plain (legacy) script: allowed once CONST_SCRIPTCODE is removed from the flags
+    out.append(("codesep-legacy", bytes([O["1"], O["CODESEPARATOR"], O["2"], O["3"], O["ADD"], O["5"], O["EQUALVERIFY"]]), [], [f for f in STANDARD if f != "CONST_SCRIPTCODE"]))
+    out.append(("codesep-twice", bytes([O["CODESEPARATOR"], O["1"], O["CODESEPARATOR"], O["DROP"], O["1"]]), [], [f for f in STANDARD if f != "CONST_SCRIPTCODE"]))
     out.append(("pushforms", b"\x00" + G.push(b"\x01\x02") + G.push(b"", 1) + G.push(b"\x07" * 76) + b"\x4f\x60\x61" + G.push(b"\x09", 2) + bytes([O["2DROP"]]) * 3, [], []))
     for i in range(8 if chk.tier == "quick" else 60):
         g = G.LongGen(rng, risk=0.0)
@@ -46,9 +49,16 @@ def run(chk):
     # plain scripts
     for name, script, stack, fl in plain_cases(chk):
         ops = len(checklib.script_ops(script))
-        for rep in range(2 if quick else 6):
+        for rep in range(3 if quick else 7):
             n += 1
-            cmds = ["step"] * (ops + 2) if rep == 0 else hist(rep, min(ops * 2 + 4, 60))
+            # rep 0: straight through; rep 1: walk - forward k steps, all the way back, forward again, for growing k (undoes every operation once)
+            if rep == 1:
+                cmds = []
+                for k in range(1, min(ops, 10) + 2):
+                    cmds += ["step"] * k + ["rewind"] * k
+                cmds += ["step"] * (ops + 1)
+            else:
+                cmds = ["step"] * (ops + 2) if rep == 0 else hist(rep, min(ops * 2 + 4, 60))
             fl = fl if fl else STANDARD
             argv = (["-f" + mods_for(fl)] if mods_for(fl) else []) + [hx0(script)] + [hx0(x) for x in stack]
             op = {"e": "Open", "id": "r%d:%s" % (n, name), "repl": True, "script": script.hex(), "stack": [x.hex() for x in stack], "flags": fl, "sigver": "BASE",
@@ -87,9 +97,15 @@ def run(chk):
         argv = ["--tx=" + j.txctx["tx"], "--txin=" + j.txctx["txin"]] + (["--select=%d" % j.txctx["select"]] if j.txctx.get("select", -1) >= 0 else [])
         if hasattr(j, "fmods"):
             argv = ["-f" + j.fmods] + argv
-        for rep in range(2):
+        for rep in range(3):
             e2 = dict(ev); e2["id"] = ev["id"] + ":%d" % rep
-            cmds = ["step"] * 45 if rep == 0 else hist(rep, 30)
+            if rep == 2:
+                cmds = []
+                for k in range(1, 9):
+                    cmds += ["step"] * k + ["rewind"] * k
+                cmds += ["step"] * 20
+            else:
+                cmds = ["step"] * 45 if rep == 0 else hist(rep, 30)
             tasks.append((e2, argv, cmds))
     def do(t):
         op, argv, cmds = t
